@@ -334,6 +334,86 @@ func jacRuns(out func(*runRec), trace bool, seed int64, procs []int) {
 	}
 }
 
+// fdRuns: Gradient / Hessian / Laplacian / CrossLaplacian with Concurrent set, against their serial
+// runs. These code paths carry no hooks: the run records only the end-of-call conditions (result
+// bit-identical to the serial answer - dyadic steps and an integer polynomial make every stencil
+// value exact, so the summation order cannot matter -, the user function called as often as in the
+// serial run, no goroutine left) and they are part of the race-detector pass.
+func fdRuns(out func(*runRec), seed int64, procs []int) {
+	poly := func(x []float64) float64 {
+		s := 3.0
+		for i, v := range x {
+			s += float64(i+1)*v*v + float64(2-i)*v
+			if i > 0 {
+				s += x[i-1] * v
+			}
+		}
+		return s
+	}
+	for _, dim := range []int{1, 2, 3, 4} {
+		x := make([]float64, dim)
+		for i := range x {
+			x[i] = float64(i) - 0.5
+		}
+		for _, p := range procs {
+			type res struct {
+				sig   string
+				calls int64
+			}
+			run := func(name string, conc bool) res {
+				var calls atomic.Int64
+				yr := rand.New(rand.NewSource(seed + int64(dim)))
+				var ymu sync.Mutex
+				f := func(x []float64) float64 {
+					calls.Add(1)
+					ymu.Lock()
+					k := yr.Intn(3)
+					ymu.Unlock()
+					for i := 0; i < k; i++ {
+						runtime.Gosched()
+					}
+					return poly(x)
+				}
+				st := &fd.Settings{Step: 1.0 / 32, Concurrent: conc}
+				var vals []float64
+				switch name {
+				case "Gradient":
+					st.Formula = fd.Central
+					vals = fd.Gradient(nil, f, x, st)
+				case "Hessian":
+					h := mat.NewSymDense(dim, nil)
+					fd.Hessian(h, f, x, st)
+					vals = h.RawSymmetric().Data
+				case "Laplacian":
+					vals = []float64{fd.Laplacian(f, x, st)}
+				case "CrossLaplacian":
+					y := make([]float64, dim)
+					for i := range y {
+						y[i] = 0.25 * float64(i+1)
+					}
+					g := func(a, b []float64) float64 { return f(a) * (1 + b[0]) }
+					vals = []float64{fd.CrossLaplacian(g, x, y, st)}
+				}
+				return res{hashF64(vals), calls.Load()}
+			}
+			for _, name := range []string{"Gradient", "Hessian", "Laplacian", "CrossLaplacian"} {
+				serial := run(name, false)
+				old := runtime.GOMAXPROCS(p)
+				base := runtime.NumGoroutine()
+				got := run(name, true)
+				leaked := settle(base)
+				runtime.GOMAXPROCS(old)
+				ok := 0
+				if got.sig == serial.sig {
+					ok = 1
+				}
+				out(&runRec{Kind: "call", Name: fmt.Sprintf("fd.%s dim=%d procs=%d", name, dim, p), Leaked: leaked,
+					Calls: got.calls, ExpCalls: serial.calls, OK: ok, Ev: []outEv{}})
+			}
+		}
+	}
+}
+
 // poolWork is one independent computation that uses the mat workspace pools
 // heavily (aliased products, banded in-place products, solves).
 func poolWork(id int, iters int) string {
@@ -429,7 +509,7 @@ func poolRuns(out func(*runRec), trace bool, seed int64, procs []int) {
 
 // record: args kinds=gemm,quad,jac,pool procs=1,2,4,16 reps=N notrace
 func record(out *core.Out, args []string, seed int64, sum *core.Summary) error {
-	kinds := map[string]bool{"gemm": true, "quad": true, "jac": true, "pool": true}
+	kinds := map[string]bool{"gemm": true, "quad": true, "jac": true, "pool": true, "fd": true}
 	procs := []int{1, 2, 4, 16}
 	reps, trace := 2, true
 	for _, a := range args {
@@ -474,6 +554,9 @@ func record(out *core.Out, args []string, seed int64, sum *core.Summary) error {
 	}
 	if kinds["pool"] {
 		poolRuns(emit, trace, seed, procs)
+	}
+	if kinds["fd"] {
+		fdRuns(emit, seed, procs)
 	}
 	return nil
 }
